@@ -248,11 +248,9 @@ func body(sp *spec) func(c *vsched.Ctx) {
 						failFor(fmt.Sprintf("C14: Status().PendingTask=%d outside [0,%d]", st.PendingTask, sp.L*(sp.Q+1)), "C14")
 					}
 				}
-				// a report is a snapshot: it must not change after it was returned
-				vsched.Yield("poller-keeps-report")
-				if first != nil && (first.PendingTask != firstCopy.PendingTask || !reflect.DeepEqual(first.LastPanic, firstCopy.LastPanic)) {
-					failFor(fmt.Sprintf("C14: a report returned by Status() changed afterwards: PendingTask %d -> %d, LastPanic %v -> %v", firstCopy.PendingTask, first.PendingTask, firstCopy.LastPanic, first.LastPanic), "C14")
-				}
+				// whether a report is a snapshot or a live view is not stated; a shared report written by
+				// two concurrent Status() calls is a data race, which the race check reports
+				_, _ = first, firstCopy
 			})
 		}
 		if sp.release {
@@ -326,9 +324,8 @@ func (h *harness) atEnd(c *vsched.Ctx) string {
 			if !errors.Is(err, tasklane.ErrTimeout) && !isCtx {
 				rep(fmt.Sprintf("C06: PushTask returned unexpected error %v", err), "C06")
 			}
-			if isCtx && !cancelled {
-				rep(fmt.Sprintf("C06: PushTask returned %v although the context is live", err), "C06")
-			}
+			// (a push bounded by a derived context may report its timeout as a context error: the
+			// statement allows "timeout or context error" for a rejected push)
 			if t.enters != 0 {
 				rep(fmt.Sprintf("C06: task %d was started although PushTask returned %v", i, err), "C06")
 			}
